@@ -3,6 +3,7 @@
 #include <execinfo.h>
 #include <stdlib.h>
 #include <string.h>
+#include <sys/mman.h>
 
 #include <new>
 
@@ -129,6 +130,14 @@ void RealFree(void *base, size_t pad) {
 
 uint64_t g_hard_cap = 0;
 
+// Descending arena: lazily committed anonymous memory, bump pointer moving down.
+uint8_t *g_arena = nullptr;
+constexpr size_t kArenaSize = 512ull << 20;
+size_t g_arena_top = 0;
+inline bool InArena(const void *p) {
+  return g_arena && p >= g_arena && p < g_arena + kArenaSize;
+}
+
 void *Allocate(size_t size, size_t align, bool nothrow) {
   if (g_alloc_yield) g_alloc_yield(0);
   if (size == 0) size = 1;
@@ -199,6 +208,53 @@ void *Allocate(size_t size, size_t align, bool nothrow) {
       throw std::bad_alloc();
     }
   }
+  if (g_cfg.perturb && g_cfg.descending) {
+    if (!g_arena) {
+      void *m = mmap(nullptr, kArenaSize, PROT_READ | PROT_WRITE,
+                     MAP_PRIVATE | MAP_ANONYMOUS | MAP_NORESERVE, -1, 0);
+      if (m != MAP_FAILED) {
+        g_arena = static_cast<uint8_t *>(m);
+        g_arena_top = kArenaSize;
+#ifdef SIM_ASAN
+        // The address range may have belonged to ASan's own large-block
+        // allocator before: its shadow can still be poisoned.
+        __asan_unpoison_memory_region(g_arena, kArenaSize);
+#endif
+      }
+    }
+    const size_t al = align > 16 ? align : 16;
+    const size_t gap = static_cast<size_t>(g_rng.Below(4)) * 16;
+    const size_t need = ((size + al - 1) / al) * al + gap;
+    if (g_arena && g_arena_top > need + 4096) {
+      g_arena_top = (g_arena_top - need) & ~(al - 1);
+      uint8_t *user = g_arena + g_arena_top;
+#ifdef SIM_ASAN
+      // Stale poison of an earlier tenant of these addresses (e.g. the array
+      // cookie of a new[] block) must not survive the arena reset.
+      __asan_unpoison_memory_region(user, need);
+#endif
+      switch (g_cfg.fill_mode) {
+        case 1:
+          memset(user, 0x00, size);
+          break;
+        case 2:
+          memset(user, 0xFF, size);
+          break;
+        default:
+          memset(user, 0xA5, size);
+          break;
+      }
+      TableInsert(user, nullptr, size);
+      if (g_cfg.active) {
+        g_stats.live += size;
+        if (g_stats.live > g_stats.peak) {
+          g_stats.peak = g_stats.live;
+          g_stats.peak_u = ComputeU();
+        }
+      }
+      return user;
+    }
+  }
   size_t pad = 0;
   if (g_cfg.perturb && g_cfg.pad) {
     pad = static_cast<size_t>(g_rng.Below(17)) * 16;
@@ -260,11 +316,20 @@ void Deallocate(void *p) {
   if (g_alloc_yield) g_alloc_yield(1);
   Entry *e = TableFind(p);
   if (!e) {
-    free(p);
+    if (!InArena(p)) free(p);
     return;
   }
   void *base = e->base;
   size_t size = e->size;
+  if (base == nullptr) {
+    // Arena block: never reused before the arena is reset.
+    const bool counted_a = e->epoch == g_epoch;
+    e->ptr = reinterpret_cast<void *>(1);
+    --g_tab.live;
+    if (g_cfg.active && counted_a)
+      g_stats.live = g_stats.live >= size ? g_stats.live - size : 0;
+    return;
+  }
   size_t pad = static_cast<uint8_t *>(p) - static_cast<uint8_t *>(base);
   bool counted = e->epoch == g_epoch;
   e->ptr = reinterpret_cast<void *>(1);
@@ -306,9 +371,11 @@ void AllocEnd(bool free_leftovers) {
       Entry &e = g_tab.e[i];
       if (e.ptr == nullptr || e.ptr == reinterpret_cast<void *>(1)) continue;
       if (e.epoch != g_epoch) continue;
-      size_t pad =
-          static_cast<uint8_t *>(e.ptr) - static_cast<uint8_t *>(e.base);
-      RealFree(e.base, pad);
+      if (e.base != nullptr) {
+        size_t pad =
+            static_cast<uint8_t *>(e.ptr) - static_cast<uint8_t *>(e.base);
+        RealFree(e.base, pad);
+      }
       e.ptr = reinterpret_cast<void *>(1);
       --g_tab.live;
     }
@@ -316,6 +383,23 @@ void AllocEnd(bool free_leftovers) {
 }
 
 void AllocSetHardCap(uint64_t bytes) { g_hard_cap = bytes; }
+
+void AllocArenaReset() {
+  if (!g_arena) return;
+  // Give the pages back (keeps the mapping): the next plan starts from zeros.
+  madvise(g_arena, kArenaSize, MADV_DONTNEED);
+  g_arena_top = kArenaSize;
+  // Blocks that were never freed (objects abandoned on purpose) must not
+  // shadow the blocks that will be placed at the same addresses.
+  for (size_t i = 0; i < g_tab.cap; ++i) {
+    Entry &e = g_tab.e[i];
+    if (e.ptr == nullptr || e.ptr == reinterpret_cast<void *>(1)) continue;
+    if (e.base == nullptr) {
+      e.ptr = reinterpret_cast<void *>(1);
+      --g_tab.live;
+    }
+  }
+}
 
 void AllocFlushQuarantine() {
   for (int i = 0; i < g_quar_n; ++i) free(g_quar[i].base);
